@@ -1,5 +1,6 @@
 import IndicatifModel.Proofs.Bridge
 import IndicatifModel.Proofs.BarReq
+import IndicatifModel.Generated.TermForward
 /-!
 # C01 — Single-bar redraw integrity: terminal = printed lines + current frame
 
@@ -169,5 +170,21 @@ example :
   refine ⟨⟨fo _ ?_ ?_ ?_, trivial⟩, ⟨fo _ ?_ ?_ ?_, trivial⟩, ⟨fo _ ?_ ?_ ?_, ?_, ?_⟩, ⟨fo _ ?_ ?_ ?_, trivial⟩, ⟨fo _ ?_ ?_ ?_, ?_, ?_⟩,
     ⟨fo _ ?_ ?_ ?_, trivial⟩, trivial⟩ <;>
     decide +kernel
+
+/-- **the source as regenerated** (`tools/gen_termlike.py`, every run): the default kind of target, `console::Term`, implements
+`TermLike` by forwarding every method unchanged — `width` / `height` are the two components of `size()`, the four cursor
+movements, `write_line`, `write_str`, `clear_line` and `flush` call the method of the same name with the same argument — and the
+trait has exactly these ten methods, `height` defaulting to 20 rows. The theorems and the model-compared streams speak about the
+calls a `TermLike` receives; for a real terminal they are the calls `console` receives (whose effect the pty streams C01P / C03P
+compare with the emulator). -/
+theorem C01_source_term_forwarding :
+    Generated.termLikeMethods = ["width", "height", "move_cursor_up", "move_cursor_down", "move_cursor_right", "move_cursor_left",
+      "write_line", "write_str", "clear_line", "flush"] ∧
+    Generated.termLikeDefaultHeight = "20" ∧
+    Generated.termForward = [("width", "self.size().1"), ("height", "self.size().0"),
+      ("move_cursor_up", "self.move_cursor_up(n)"), ("move_cursor_down", "self.move_cursor_down(n)"),
+      ("move_cursor_right", "self.move_cursor_right(n)"), ("move_cursor_left", "self.move_cursor_left(n)"),
+      ("write_line", "self.write_line(s)"), ("write_str", "self.write_str(s)"), ("clear_line", "self.clear_line()"),
+      ("flush", "self.flush()")] := by decide
 
 end IndicatifModel
